@@ -12,6 +12,10 @@ CLAIMS = {
   "For any coordinate type and candidate function: generate_connectivty yields the perception of the current coordinates whatever the record held; symbols -> set_coordinates -> generate_connectivty equals the file constructor's molecule field for field; for EVERY call history ending in generate_connectivty (resp. a successful set_bond_orders m) the connectivity is the perception of the current coordinates (resp. exactly what m specifies) — nothing stale survives; wrong-length coordinate lists are refused with the state unchanged; build_3d refuses multi-atom molecules without bonds; a model without the clear is refuted by a two-call witness. The model reproduces the wrapper's full state after every call of random call sequences.",
   TB + "Modelled: wrapper methods (corresponded on call sequences through the hook). File text handling is C13/C14.",
   "Lean 4 proof (state machine, all call histories) + op-sequence correspondence through the wrapper hook", "DESIGN.md §5 C17"),
+ "C18": ("proof",
+  "For any two groups whose candidate lists never cross, any caps and candidate orders: the bonds perceived in the union are the bonds perceived in A followed by the index-shifted bonds perceived in B (the greedy loop on a closed subset behaves as on that subset alone); an atom of A reads in the union exactly the typing view (neighbours, aromatic count, order sum) it reads in A alone; over the reals energy and every gradient component of a union of term lists are the sums of the parts' plus the cross terms, and a cross 12-6 term is bounded by 2 D (sigma/r)^6 for r >= sigma. With C10/C11/C08 this gives connectivity, types and terms of the union from the parts. Checked on the real code for generated pairs at 50-10000 A in both orders.",
+  TB + "Modelled: perception/typing/construction (corresponded). Additivity over the reals; float tail checked numerically.",
+  "Lean 4 proof (greedy-loop restriction lemma, locality of the typing view, additivity) + construction correspondences + fragment-pair search", "DESIGN.md §5 C18"),
  "C19": ("proof",
   "PARTIAL. Proved on the model of build_3d, for every enumeration of the bond set, every random placement and every outcome of the intermediate optimisations: the final bond set with orders, the atoms and all derived connectivity equal the initial ones; the optimiser budgets are 20 and 500 (C05 bounds the gradient requests). Explored, not proved: the geometric quality of the embedded structure (bond lengths within 25 % of the radii sum, no pair closer than 0.3 A, finite), evaluated on real builds of real molecules' bond graphs with the builder's own random starts.",
   TB + "Geometric half is exploration of a randomised floating-point procedure (thread_rng is not seedable: failures are replayed by their bond table and result).",
